@@ -17,10 +17,9 @@ SENDER_CONS = [("FxAssertAck", ""),                     # assert ack.flow_id >= 
                ("FxStopAcked", ""),                     # for pid in [p for p in self.timers if p + self.mss <= ackno]: stop, del, del
                ("FxTokenPut", ""),                      # self.cwnd_avaialbe.put(True)
                ("FxTimerRestart", "(id : Z) (r : Q)")]  # self.timers[id].restart(r)
+# the body of this loop is tied on its own (extracted_tcpresend: gen_stop_acked_iter), here the loop is one effect
 STOP_LOOP = """for pid in [p for p in self.timers if p + self.mss <= ackno]:
-    self.timers[pid].stop()
-    del self.timers[pid]
-    del self.sent_packets[pid]"""
+    _body"""
 SENDER_FX = [("assert ack.flow_id >= 10000", "FxAssertAck", []),
              ("self.congestion_control.dupack_over()", "FxCcDupackOver", []),
              ("self.congestion_control.consecutive_dupacks_received()", "FxCcFastRetransmit", []),
@@ -49,6 +48,35 @@ def extracted_tcpsender(repo):
                          "sender_fx", SENDER_CONS, specs)
 
 
+# ---- resend_packet and the loop of put() that stops the acknowledged timers ---------------------------------------------
+RESEND_CONS = [("FxRestamp", "(t : Q)"),        # resent_pkt.time = self.env.now
+               ("FxAssertOut", ""),             # assert self.out
+               ("FxTx", ""),                    # self.out.put(resent_pkt)
+               ("FxTimerStop", ""),             # self.timers[pid].stop()
+               ("FxDelTimer", ""),              # del self.timers[pid]
+               ("FxDelSent", ""),               # del self.sent_packets[pid]
+               ("FxLoopAgain", "")]
+ACKED = "[p for p in self.timers if p + self.mss <= ackno]"     # the ids the loop runs over, computed before it starts
+
+
+def extracted_tcpresend(repo):
+    from vlib import translate as tr
+    path = os.path.join(repo, "onl", "packet", "tcp_generator.py")
+    specs = [tr.FnSpec(path, "TCPPacketGenerator", "resend_packet", "gen_resend_packet",
+                       reads=[("seqno not in self.sent_packets", "not_in_flight", "bool"), ("self.env.now", "now", "Q")],
+                       effects=[("resent_pkt.time = _1", "FxRestamp", ["Q"]), ("assert self.out", "FxAssertOut", []),
+                                ("self.out.put(resent_pkt)", "FxTx", [])],
+                       aliases=[("resent_pkt = self.sent_packets[seqno]", "resent_pkt")], local_state=True),
+             tr.FnSpec(path, "TCPPacketGenerator", "put", "gen_stop_acked_iter", select="inner_for", local_state=True,
+                       loop_index="k", loop_again="FxLoopAgain", reads=[(ACKED, "n_acked", "len")],
+                       effects=[("self.timers[pid].stop()", "FxTimerStop", []), ("del self.timers[pid]", "FxDelTimer", []),
+                                ("del self.sent_packets[pid]", "FxDelSent", [])])]
+    return tr.gen_module("onl/packet/tcp_generator.py: TCPPacketGenerator.resend_packet; ONE iteration of the loop of put() over the "
+                         "acknowledged timer ids (state record = the position k)", "ack_st", "a_", [("k", "Z")], "resend_fx",
+                         RESEND_CONS, specs)
+
+
 def write_extracted_tcpsender(repo, coq_dir):
     from vlib import translate as tr
+    tr.write_if_changed(os.path.join(coq_dir, "Gen", "Extracted_tcpresend.v"), extracted_tcpresend(repo))
     return tr.write_if_changed(os.path.join(coq_dir, "Gen", "Extracted_tcpsender.v"), extracted_tcpsender(repo))
